@@ -65,9 +65,13 @@ def tcmdText : TCmd → String
   | .tt => "true" | .ff => "false" | .has p => "has:" ++ p | .grep p w => "grep:" ++ w ++ ":" ++ p
 
 /-- Runtime rule pre-image as `ruleHash(runtime = true)` writes it: everything of the build-time one, then each
-    data entry's `String()`, then the test command — unframed.  `no_test_output` is not written. -/
-def ruleSerRT (a : TAttrs) : String :=
+    data entry's `String()`, then the test command — unframed.  `no_test_output` is written only if the regenerated
+    facts say so (`hashNoOut`; one byte, placed first here — its position does not matter). -/
+def ruleSerRTWith (hashNoOut : Bool) (a : TAttrs) : String :=
+  (if hashNoOut then (if a.noOutput then "T" else "F") else "") ++
   ruleSerB a ++ String.join a.data ++ "\x01" ++ tcmdText a.tcmd ++ (if a.writes then "+results" else "")
+
+def ruleSerRT (a : TAttrs) : String := ruleSerRTWith hashesNoOutput a
 
 /-- Look a path up in the runtime directory: a top-level file, or a file of a (one-level) directory entry. -/
 def lookupPath (files : List (String × Tree)) (p : String) : Option String :=
